@@ -117,7 +117,7 @@ def registry_oracle(script, impl):
             continue
         if s is None or s.uncertain:
             continue
-        if op == 'begin':
+        if op in ('begin', 'beginbg'):
             c, mode = ws[1], ws[2]
             s.cleanup()
             if s.uncertain:
@@ -275,7 +275,7 @@ def registry_nontrivial(script, impl):
     """a begin timed out under contention, or a handle was finished twice / raced, or an abandoned handle was collected,
     and a probe followed"""
     outs = [(ws, out) for ws, out in _ops(script, impl)]
-    ev = any(out == 'err timeout' for ws, out in outs if ws[0] == 'begin') or \
+    ev = any(out == 'err timeout' for ws, out in outs if ws[0] in ('begin', 'beginbg')) or \
         any(ws[0] in ('race', 'cleanup', 'cleanconn', 'shutdown', 'refop') for ws, out in outs) or \
         any(out == 'err invalidkey' for ws, out in outs)
     return ev and any(out == 'probe ok' for ws, out in outs if ws[0] == 'probe')
@@ -286,8 +286,9 @@ def registry_stats(results):
              invalid_key_calls=0, closed_answers=0, notfound_answers=0, prediction_stopped=0)
     for r in results:
         for ws, out in _ops(r.script, r.impl):
-            if ws[0] == 'begin' and out == 'err timeout':
+            if ws[0] in ('begin', 'beginbg') and out == 'err timeout':
                 d['begin_timeouts'] += 1
+                d['internal_limit_timeouts'] = d.get('internal_limit_timeouts', 0) + (ws[0] == 'beginbg')
             elif ws[0] == 'probe':
                 d['probes_ok' if out == 'probe ok' else 'probes_blocked'] += 1
             elif ws[0] == 'race':
